@@ -38,7 +38,7 @@ vars == <<l, run, now, meta, eps, sendIdx, app, infl, sk, pairs, last, viol, cov
 
 RuleNames == {
     "C01.NoGarbage", "C01.SegStable", "C01.SegContiguous", "C01.ReadIsPrefix", "C01.ReadWithinWritten",
-    "C02.IdleWrite", "C02.IdleShutdown", "C02.NoStall", "C02.Silence", "C02.CompletesOk",
+    "C02.IdleWrite", "C02.IdleShutdown", "C02.NoStall", "C02.Silence", "C02.CompletesOk", "C02.ReaderWoken",
     "C03.FlushHonest", "C03.EofOnlyAfterFin", "C03.SuccessMeansDelivered", "C03.AbortSurfaces", "C03.NoSuccessAfterAbort", "C03.FinInSequence",
     "C04.AckExact", "C04.AckMonotone", "C04.SackExact", "C04.WindowHonest", "C04.WithinBuffer",
     "C04.ConsumeExact", "C04.OutOfOrderIsAhead", "C04.DuplicateIsOld", "C04.AlreadyPresentIsHeld",
@@ -142,6 +142,7 @@ TickRules(k, t) ==
           <<k, "C06.RtoFires", (SentUnacked(e) \/ FinUnacked(e)) /\ alive /\ e.tRtx >= 0 /\ ~e.txPending,
                                t <= e.tRtx + Eps, "">>,
           <<k, "C02.IdleWrite", e.idleWr > 0 /\ alive, FALSE, "">>,
+          <<k, "C02.ReaderWoken", e.eofDue > 0 /\ e.readPend /\ ~e.rDropped, FALSE, "">>,
           \* C18 "small writes are coalesced into the next full segment or sent when the pipe drains"
           <<k, "C18.NagleDrain", e.drainDue > 0 /\ alive, FALSE, "">>,
           <<k, "C02.IdleShutdown", e.idleFin > 0 /\ alive, FALSE, "">>,
@@ -169,6 +170,7 @@ Tick(r) ==
     \* an obligation is reported once
     /\ eps' = [k \in DOMAIN eps |->
                  [eps[k] EXCEPT !.ackImm = 0, !.frDue = 0, !.idleWr = 0, !.idleFin = 0, !.finAnsDue = 0, !.drainDue = 0,
+                                !.eofDue = 0,
                                 !.slotDue = 0,
                                 !.resetAt = 0,
                                 !.ackDue = IF @ >= 0 /\ r.now > @ + Eps THEN -1 ELSE @,
@@ -402,7 +404,10 @@ Disp(r) ==
                     <<"C07.ImmediateAck", e1.ackImm > 0 /\ e.ackImm = 0, TRUE>>,
                     <<"C07.DelayedAck", e1.ackDue >= 0 /\ e.ackDue < 0, TRUE>>,
                     <<"C17.FinAnswered", e1.finAnsDue > 0, TRUE>> }
-            IN  Judge(k, rules) /\ eps' = [eps EXCEPT ![k] = e1]
+                \* C02 "blocked readers/writers are always woken when their condition changes": end-of-stream became
+                \* readable while a read was waiting
+                e2 == [e1 EXCEPT !.eofDue = IF w = "fin_accepted" /\ e.readPend THEN l ELSE @]
+            IN  Judge(k, rules \cup { <<"C02.ReaderWoken", e2.eofDue > 0 /\ e.eofDue = 0, TRUE>> }) /\ eps' = [eps EXCEPT ![k] = e2]
 
 ---------------------------------------------------------------------------
 (* Application calls.                                                      *)
